@@ -110,6 +110,8 @@ let judge _name ins outs =
     else if List.mem_assoc "err" rl then Some None
     else (try Some (Some (fst (msg_of isreq "r" outs))) with Unrep _ -> Some None) in
   let ob_reparse = if full_expected then reparse_obs else None in
+  let cls = (match List.assoc_opt "dc" go with
+      | Some "open" -> DecFailOpen | Some "read" -> DecFailRead | _ -> DecOk) in
   let rec_n = int_of_string (get go "rec") in
   let err = get go "err" in
   let startline = (match List.assoc_opt "sl" go with
@@ -123,7 +125,8 @@ let judge _name ins outs =
   if not (forwarded_ok m o) || td_o <> td_a then
     VPropfail ("forwarded_unchanged",
                sp (Printf.sprintf "%s orig=%s after=%s wire-same=%s unlogged-framing=%s logged-framing=%s"
-                     (if msg_eqb m am && td_o = td_a then "fields=same"
+                     (if List.mem "conc=0" outs then "concurrent-run-differs-from-sequential" else
+                      if msg_eqb m am && td_o = td_a then "fields=same"
                       else if msg_eqb (set_body m am.m_nobody m.m_body) am && td_o = td_a then "only-nobody-flag-differs"
                       else "fields=differ")
                      (show_msg m) (show_msg am) (get go "fwd") (get go "ufr") (get go "lfr")))
@@ -143,7 +146,10 @@ let judge _name ins outs =
                    | None -> "?"))
   else if not (skip_ok skip o) then
     VPropfail ("skip_means_unrecorded", Printf.sprintf "records=%d" rec_n)
-  else if o.ob_err then VPropfail ("logger_error", "err=" ^ err)
+  else if o.ob_err then
+    VPropfail ("logger_error",
+               "err=" ^ err ^ (if logger_errors lg skip cls m then "_model=expects-error" else "_model=expects-none"))
+  else if logger_errors lg skip cls m then VDisagree "model-expects-a-logger-error-real-returned-none"
   else if not (c15_ok skip m o) then VDisagree "oracle-conjunction-inconsistent"
   else
   (* ---------------- model vs implementation ---------------- *)
